@@ -6,6 +6,8 @@
 //!
 //! C18: time_written_is_master_time, sync_failure_reported, success_implies_written
 //! C02: nothing_fabricated, no_resurrection, events_delivered_at_least_once, converged_after_quiescence
+//!      (`@converged`: after two explicit integrity reads; `@converged auto`: no user request in the tail, the
+//!      picture is judged per point on what the library is configured to report by itself, see `owed` below)
 use crate::util::{unhex, Stats};
 use std::collections::{BTreeMap, VecDeque};
 use std::io::Write;
@@ -123,12 +125,55 @@ fn decode_measurements(mut b: &[u8]) -> Option<Vec<(bool, bool, u16, Vec<u8>)>> 
 struct Pt {
     /// (number of updates applied before this value became current, image)
     hist: Vec<(u64, Vec<u8>)>,
+    /// 0 = no event class (updates create no events), 1..3
+    class: u8,
+    /// index of the op that added / last updated the point (within an op the database effect comes first)
+    changed_at: usize,
+}
+
+/// what the `cfg` line and the `addpoll` ops configured: the library's own reporting mechanisms
+#[derive(Default)]
+struct Mech {
+    /// outstation: unsolicited reporting compiled in / allowed
+    unsolicited: bool,
+    /// master: classes enabled for unsolicited reporting after every start-up integrity poll
+    en: u8,
+    /// master: classes of the start-up / restart / overflow integrity poll (bit 3 = class 0)
+    int: u8,
+    /// master: classes scanned automatically when a response reports CLASS_n_EVENTS
+    evscan: u8,
+    /// master: `auto_integrity_scan_on_buffer_overflow`
+    ovf: bool,
+    /// class masks of the periodic polls added so far
+    polls: Vec<u8>,
+}
+
+impl Mech {
+    /// a periodic poll re-reads every point
+    fn periodic_class0(&self) -> bool {
+        self.polls.iter().any(|c| c & 8 != 0)
+    }
+    /// events of class `c` (1..3) are reported without any user request
+    fn events(&self, c: u8) -> Option<&'static str> {
+        let bit = 1u8 << (c - 1);
+        if self.polls.iter().any(|p| p & bit != 0) {
+            Some("periodic event poll")
+        } else if self.unsolicited && self.en & bit != 0 {
+            Some("unsolicited reporting")
+        } else if self.evscan & bit != 0 && !self.polls.is_empty() {
+            Some("automatic event scan after a periodic poll")
+        } else {
+            None
+        }
+    }
 }
 
 struct Ev {
     id: u64,
     key: (bool, u16, Vec<u8>),
     discarded: bool,
+    /// index of the op whose update pushed it out of the buffer
+    discarded_at: Option<usize>,
     released: bool,
     /// (session, number of the transmitted fragment that carried it last, unsolicited?)
     last_carried: Option<(usize, usize, bool)>,
@@ -209,6 +254,25 @@ pub fn check(hdr: &str, trace: &[(String, Vec<String>)], mon: &mut dyn Write, st
     let mut quiet = false;
     let mut completes: BTreeMap<u64, String> = BTreeMap::new();
     let mut any_data = false;
+    // ---- C02, `@converged auto`: what the library is configured to do by itself, and what the master was shown
+    let mut mech = Mech::default();
+    let mut assoc_ok = false;
+    let mut m_dead = false;
+    // number of updates applied when the connection was last cut (the master's next session starts with
+    // its start-up sequence: disable unsolicited, integrity poll, enable unsolicited)
+    let mut last_cut: Option<usize> = None;
+    // the master's READ in progress: index of the op in which it was written
+    let mut read_outstanding: Option<usize> = None;
+    let mut read_task = String::new();
+    // fragments with IIN2.3 handed to the handler: (index of the op, READ outstanding then)
+    let mut ovf_shown: Vec<(usize, Option<usize>)> = Vec::new();
+    // the solicited series being transmitted: fragments so far, carried events, IIN2.3 in a non-final fragment
+    let mut ser_frags = 0usize;
+    let mut ser_events = false;
+    let mut ser_ovf_nonfinal = false;
+    let mut shape_cases: std::collections::BTreeSet<&'static str> = Default::default();
+    // every response fragment the outstation transmitted: (index of the op, IIN2.3 set)
+    let mut o_resp_tx: Vec<(usize, bool)> = Vec::new();
     // ---- C18
     let mut sync: Option<Sync> = None;
     let mut record_delivered: Option<u64> = None; // when the last RECORD_CURRENT_TIME reached the outstation
@@ -220,7 +284,18 @@ pub fn check(hdr: &str, trace: &[(String, Vec<String>)], mon: &mut dyn Write, st
         }
         let mut injected: Option<WireItem> = None;
         match ws[0] {
-            "cfg" => base = kv(&ws, "mclock").and_then(|v| v.parse().ok()),
+            "cfg" => {
+                base = kv(&ws, "mclock").and_then(|v| v.parse().ok());
+                let num = |k: &str, d: u8| kv(&ws, k).and_then(|v| v.parse::<u8>().ok()).unwrap_or(d);
+                mech.unsolicited = num("unsolicited", 0) == 1;
+                mech.en = num("en", 7);
+                mech.int = num("int", 15);
+                mech.evscan = num("evscan", 0);
+                mech.ovf = num("ovf", 1) == 1;
+            }
+            "addpoll" if ws.len() == 3 && outs.iter().any(|o| o.starts_with("m poll ") && o != "m poll err") => {
+                mech.polls.push(ws[2].parse::<u64>().unwrap_or(0) as u8);
+            }
             "mclock" => base = ws.get(1).and_then(|v| v.parse().ok()),
             "cut" => {
                 m2o.clear();
@@ -241,6 +316,9 @@ pub fn check(hdr: &str, trace: &[(String, Vec<String>)], mon: &mut dyn Write, st
                 read_mark = None;
                 last_sol = None;
                 last_uns = None;
+                last_cut = Some(k);
+                read_outstanding = None;
+                ser_frags = 0;
             }
             "inject" if ws.len() == 5 => {
                 injected = Some(WireItem { sent: now, src: ws[2].parse().unwrap_or(0), frag: unhex(ws[4]), mark: updates, injected: true });
@@ -250,7 +328,15 @@ pub fn check(hdr: &str, trace: &[(String, Vec<String>)], mon: &mut dyn Write, st
             }
             "@quiet" => quiet = true,
             "@converged" => {
+                let auto = ws.get(1) == Some(&"auto");
                 stats.hit("c02_tail_reached");
+                stats.hit(if !auto { "c02_tail_explicit" } else if last_cut.is_some() && trace[..k].iter().rev().take_while(|t| t.0 != "@quiet").any(|t| t.0 == "cut") { "c02_tail_auto_after_cut" } else { "c02_tail_auto" });
+                for sh in &shape_cases {
+                    stats.hit(&format!("{sh}_cases"));
+                    if auto {
+                        stats.hit(&format!("{sh}_cases_auto_tail"));
+                    }
+                }
                 // ---- converged_after_quiescence / events_delivered_at_least_once
                 if !any_data {
                     continue;
@@ -260,29 +346,136 @@ pub fn check(hdr: &str, trace: &[(String, Vec<String>)], mon: &mut dyn Write, st
                     fail(mon, hdr, "converged_after_quiescence", "", "the outstation task died without the D3 history");
                     continue;
                 }
-                let fin = completes.get(&9002).cloned().unwrap_or("missing".to_string());
-                if fin != "ok" {
-                    fail(mon, hdr, "converged_after_quiescence", cause, &format!("the final integrity read did not complete: {fin}"));
+                if auto && (!assoc_ok || m_dead) {
+                    // no association / no master task: nothing reports anything
+                    stats.hit("c02_auto_no_association");
                     continue;
                 }
+                if !auto {
+                    let fin = completes.get(&9002).cloned().unwrap_or("missing".to_string());
+                    if fin != "ok" {
+                        fail(mon, hdr, "converged_after_quiescence", cause, &format!("the final integrity read did not complete: {fin}"));
+                        continue;
+                    }
+                }
+                // `auto`: the tail contains no user request.  A point's current value is OWED to the handler by
+                // the library's own mechanisms when, after the point's last update,
+                //   A  a periodic poll that includes class 0 is configured (it re-reads every point), or
+                //   B  the update was recorded as an event that was not overflow-discarded and the point's class
+                //      is reported without a user request (periodic poll of that class, unsolicited reporting
+                //      enabled at the outstation and by the master's `en` mask, or an automatic event scan of
+                //      that class fed by the IIN of some periodic poll's response), or
+                //   C  the master's integrity poll covers class 0 and was due after the update, because
+                //      C1 the connection was cut after the update (start-up integrity poll of the new session), or
+                //      C2 with auto_integrity_scan_on_buffer_overflow, the handler was handed a fragment with
+                //         IIN2.3 after the update while no READ written before the update was in progress (an
+                //         indication received during a READ is only known to demand a poll that reads later
+                //         values if that READ itself was written after the update).
+                // A stale point that is not owed is counted, not failed.
+                let owed = |is_bin: bool, idx: u16, p: &Pt| -> Option<String> {
+                    let cur = &p.hist.last().unwrap().1;
+                    let u = &p.changed_at;
+                    if mech.periodic_class0() {
+                        return Some("A: a periodic poll including class 0 is configured".to_string());
+                    }
+                    if p.class >= 1 {
+                        if let Some(how) = mech.events(p.class) {
+                            if let Some(e) = ledger.iter().rev().find(|e| e.key.0 == is_bin && e.key.1 == idx) {
+                                if &e.key.2 == cur && !e.discarded {
+                                    return Some(format!("B: its last update is event {} of class {}, not discarded; {how}", e.id, p.class));
+                                }
+                            }
+                        }
+                    }
+                    if mech.int & 8 != 0 {
+                        if let Some(c) = last_cut {
+                            if c >= *u {
+                                return Some("C1: reconnection after its last update; the start-up integrity poll includes class 0".to_string());
+                            }
+                        }
+                        if mech.ovf {
+                            if let Some((acc, _)) = ovf_shown.iter().find(|(acc, out)| acc >= u && out.map(|m| m >= *u).unwrap_or(true)) {
+                                return Some(format!("C2: the handler was handed IIN2.3 after its last update (op {acc}, its last update op {u}); overflow demands an integrity poll including class 0"));
+                            }
+                        }
+                    }
+                    None
+                };
                 let mut ok = true;
+                let mut all_owed = true;
                 for ((is_bin, idx), p) in &pts {
                     let cur = &p.hist.last().unwrap().1;
+                    let why = if auto { owed(*is_bin, *idx, p) } else { Some(String::new()) };
+                    if auto {
+                        match &why {
+                            Some(w) => stats.hit(&format!("c02_auto_point_owed_{}", &w[..w.find(':').unwrap_or(1)])),
+                            None => {
+                                all_owed = false;
+                                stats.hit("c02_auto_point_not_owed");
+                            }
+                        }
+                    }
                     match last_delivered.get(&(*is_bin, *idx)) {
                         Some(img) if img == cur => {}
-                        other => {
-                            ok = false;
-                            fail(mon, hdr, "converged_after_quiescence", cause, &format!("{} {idx}: database {:02x?}, handler's last {:02x?}", if *is_bin { "binary" } else { "analog" }, cur, other));
-                            break;
-                        }
+                        other => match why {
+                            Some(w) => {
+                                if ok {
+                                    fail(mon, hdr, "converged_after_quiescence", cause, &format!("{} {idx}: database {:02x?}, handler's last {:02x?}{}", if *is_bin { "binary" } else { "analog" }, cur, other, if auto { format!(" (no user read in the tail; owed by {w})") } else { String::new() }));
+                                }
+                                ok = false;
+                            }
+                            None => {
+                                // why nothing owes it (distribution only; `INFO` lines are not read by ./check)
+                                stats.hit("c02_auto_point_stale_not_owed");
+                                let last_ev = ledger.iter().rev().find(|e| e.key.0 == *is_bin && e.key.1 == *idx);
+                                let why = if p.class == 0 || last_ev.is_none() {
+                                    "static_value_no_periodic_class0_poll_no_trigger"
+                                } else if mech.events(p.class).is_none() && !last_ev.map(|e| e.discarded).unwrap_or(false) {
+                                    "class_not_reported_by_itself"
+                                } else if !mech.ovf || mech.int & 8 == 0 {
+                                    "last_event_discarded_overflow_recovery_not_configured"
+                                } else if last_ev.map(|e| e.discarded).unwrap_or(false) {
+                                    "last_event_discarded_overflow_never_indicated_after"
+                                } else {
+                                    "other"
+                                };
+                                stats.hit(&format!("c02_auto_point_stale_not_owed_{why}"));
+                                if why.starts_with("last_event_discarded_overflow_never") || why == "other" {
+                                    writeln!(mon, "INFO {hdr} :: stale point not owed ({why}) :: {} {idx}", if *is_bin { "binary" } else { "analog" }).unwrap();
+                                }
+                                // D28 (provisional id): the overflow that discarded the point's last event was never
+                                // indicated at all, although the outstation went on responding: the buffer overflowed
+                                // while a response carrying events awaited its confirm, and that confirm
+                                // (`EventBuffer::clear_written`: no type is full any more) cleared the indication before
+                                // any response written after the overflow could carry it.  The master is configured to
+                                // recover (ovf, integrity poll with class 0) and is never told to.
+                                if let Some(d) = last_ev.and_then(|e| e.discarded_at) {
+                                    let indicated = o_resp_tx.iter().any(|(t, b)| *t >= d && *b);
+                                    let responded = o_resp_tx.iter().any(|(t, b)| *t >= d && !*b);
+                                    if why.starts_with("last_event_discarded_overflow_never") && !indicated && responded && ok {
+                                        stats.hit("c02_auto_overflow_indication_lost");
+                                        fail(mon, hdr, "converged_after_quiescence", "D28", &format!("{} {idx}: database {:02x?}, handler's last {:02x?} (no user read in the tail; its last event was overflow-discarded in op {d}; auto_integrity_scan_on_buffer_overflow is on and the integrity poll includes class 0, but no response fragment written since carried IIN2.3 although the outstation responded: the indication was cleared without ever being reported)", if *is_bin { "binary" } else { "analog" }, cur, other));
+                                        ok = false;
+                                    }
+                                }
+                            }
+                        },
                     }
                 }
                 if ok {
-                    stats.hit("c02_converged");
+                    stats.hit(if auto { "c02_auto_converged_where_owed" } else { "c02_converged" });
+                }
+                if auto && all_owed {
+                    stats.hit("c02_auto_every_point_owed");
                 }
                 let mut need: BTreeMap<(bool, u16, Vec<u8>), (u64, Vec<&'static str>)> = BTreeMap::new();
                 for e in &ledger {
-                    if !e.discarded {
+                    // `auto`: an event is owed when its point's class is reported without a user request
+                    let owed_event = !auto || pts.get(&(e.key.0, e.key.1)).map(|p| p.class >= 1 && mech.events(p.class).is_some()).unwrap_or(false);
+                    if auto && !e.discarded {
+                        stats.hit(if owed_event { "c02_auto_event_owed" } else { "c02_auto_event_not_owed" });
+                    }
+                    if !e.discarded && owed_event {
                         let ent = need.entry(e.key.clone()).or_insert((0, Vec::new()));
                         ent.0 += 1;
                         let c = lost_cause(e, session);
@@ -300,12 +493,12 @@ pub fn check(hdr: &str, trace: &[(String, Vec<String>)], mon: &mut dyn Write, st
                         // (events are matched to wire objects by image, so the per-image attribution can be off by
                         // one identical image: the case-level history decides then)
                         let c = if d3_dead { "D3" } else if causes.len() as u64 >= *n - got { causes[0] } else if d19_hist { "D19" } else if d4_hist { "D4" } else { "" };
-                        fail(mon, hdr, "events_delivered_at_least_once", c, &format!("{} {} image {:02x?}: {n} event(s) recorded and not overflow-discarded, {got} reached the handler", if key.0 { "binary" } else { "analog" }, key.1, key.2));
+                        fail(mon, hdr, "events_delivered_at_least_once", c, &format!("{} {} image {:02x?}: {n} event(s) recorded and not overflow-discarded, {got} reached the handler{}", if key.0 { "binary" } else { "analog" }, key.1, key.2, if auto { " (no user read in the tail; the point's class is reported by the library itself)" } else { "" }));
                         break;
                     }
                 }
                 if all {
-                    stats.hit("c02_all_events_delivered");
+                    stats.hit(if auto { "c02_auto_all_owed_events_delivered" } else { "c02_all_events_delivered" });
                 }
                 stats.add("c02_events_recorded", ledger.len() as u64);
                 stats.add("c02_events_discarded", ledger.iter().filter(|e| e.discarded).count() as u64);
@@ -319,7 +512,7 @@ pub fn check(hdr: &str, trace: &[(String, Vec<String>)], mon: &mut dyn Write, st
                 let is_bin = ws[0] == "addbin";
                 let idx: u16 = ws[1].parse().unwrap();
                 any_data = true;
-                pts.insert((is_bin, idx), Pt { hist: vec![(updates, if is_bin { vec![0x02] } else { vec![0x02, 0, 0, 0, 0] })] });
+                pts.insert((is_bin, idx), Pt { hist: vec![(updates, if is_bin { vec![0x02] } else { vec![0x02, 0, 0, 0, 0] })], class: ws[2].parse::<u8>().ok().filter(|c| *c <= 3).unwrap_or(0), changed_at: k });
             }
             "addmany" if outs.iter().any(|o| o.starts_with("o added ")) => {
                 let is_bin = ws[1] == "bin";
@@ -327,7 +520,7 @@ pub fn check(hdr: &str, trace: &[(String, Vec<String>)], mon: &mut dyn Write, st
                 let count: u16 = ws[3].parse().unwrap();
                 any_data = true;
                 for i in 0..count {
-                    pts.entry((is_bin, start + i)).or_insert(Pt { hist: vec![(updates, if is_bin { vec![0x02] } else { vec![0x02, 0, 0, 0, 0] })] });
+                    pts.entry((is_bin, start + i)).or_insert(Pt { hist: vec![(updates, if is_bin { vec![0x02] } else { vec![0x02, 0, 0, 0, 0] })], class: ws[4].parse::<u8>().ok().filter(|c| *c <= 3).unwrap_or(0), changed_at: k });
                 }
             }
             "txn" => {
@@ -345,19 +538,25 @@ pub fn check(hdr: &str, trace: &[(String, Vec<String>)], mon: &mut dyn Write, st
                     updates += 1;
                     if let Some(pt) = pts.get_mut(&(is_bin, idx)) {
                         pt.hist.push((updates, img.clone()));
+                        pt.changed_at = k;
                     }
                     match r[2] {
-                        "created" => ledger.push(Ev { id: r[3].parse().unwrap(), key: (is_bin, idx, img), discarded: false, released: false, last_carried: None }),
+                        "created" => ledger.push(Ev { id: r[3].parse().unwrap(), key: (is_bin, idx, img), discarded: false, discarded_at: None, released: false, last_carried: None }),
                         "overflow" => {
                             let disc: u64 = r[4].parse().unwrap();
                             if let Some(e) = ledger.iter_mut().find(|e| e.id == disc) {
                                 e.discarded = true;
+                                e.discarded_at = Some(k);
                                 if e.last_carried.is_some() && !e.released {
                                     d3_possible = true;
                                 }
                             }
-                            ledger.push(Ev { id: r[3].parse().unwrap(), key: (is_bin, idx, img), discarded: false, released: false, last_carried: None });
+                            ledger.push(Ev { id: r[3].parse().unwrap(), key: (is_bin, idx, img), discarded: false, discarded_at: None, released: false, last_carried: None });
                             stats.hit("c02_overflow");
+                            if !last_sol_fin && ser_frags >= 1 {
+                                stats.hit("c02_overflow_during_multifragment_read");
+                                shape_cases.insert("c02_overflow_during_multifragment_read");
+                            }
                         }
                         _ => {}
                     }
@@ -488,6 +687,7 @@ pub fn check(hdr: &str, trace: &[(String, Vec<String>)], mon: &mut dyn Write, st
                     "tx" if w.len() == 4 => {
                         let frag = unhex(w[3]);
                         if frag.len() >= 2 && frag[1] == 1 {
+                            read_outstanding = Some(k);
                             read_mark = Some(updates);
                             if d19_fin_seen {
                                 d19_static = false;
@@ -591,7 +791,25 @@ pub fn check(hdr: &str, trace: &[(String, Vec<String>)], mon: &mut dyn Write, st
                         }
                         _ => {}
                     },
-                    "deliver" if w.len() >= 4 && w[3] == "begin" => deliver_kind = w[4].to_string(),
+                    "info" if w.len() >= 5 && (w[3] == "start" || w[3] == "success" || w[3] == "fail") && matches!(w[4], "user_read" | "periodic_poll" | "startup_integrity" | "auto_event_scan") => {
+                        if w[3] == "start" {
+                            read_task = w[4].to_string();
+                        } else {
+                            read_outstanding = None;
+                        }
+                    }
+                    "assoc" if w.len() >= 3 && w[2] == "ok" => assoc_ok = true,
+                    "panic" | "task-exit" => m_dead = true,
+                    "deliver" if w.len() >= 4 && w[3] == "begin" => {
+                        deliver_kind = w[4].to_string();
+                        // the IIN handed to the handler with the fragment (`ReadHandler::begin_fragment`)
+                        let iin2: u8 = w.get(7).and_then(|v| v.parse().ok()).unwrap_or(0);
+                        let from_relay = cur_to_m.iter().any(|i| i.src != 1024) || op.starts_with("inject");
+                        if iin2 & 0x08 != 0 && !from_relay {
+                            ovf_shown.push((k, read_outstanding));
+                            stats.hit("c02_iin23_handed_to_handler");
+                        }
+                    }
                     "deliver" if w.len() >= 9 && w[3] == "hdr" => {
                         let (g, v): (u8, u8) = (w[4].parse().unwrap(), w[5].parse().unwrap());
                         let (is_ev, is_bin) = match (g, v) {
@@ -652,6 +870,7 @@ pub fn check(hdr: &str, trace: &[(String, Vec<String>)], mon: &mut dyn Write, st
                         let frag = unhex(w[3]);
                         if frag.len() >= 4 && (frag[1] == 0x81 || frag[1] == 0x82) {
                             let uns = frag[1] == 0x82;
+                            o_resp_tx.push((k, frag[3] & 0x08 != 0));
                             // which recorded events does it carry? (oldest alive event of that image first)
                             let key = frag.clone();
                             let no = match carried_of.get(&key) {
@@ -687,6 +906,30 @@ pub fn check(hdr: &str, trace: &[(String, Vec<String>)], mon: &mut dyn Write, st
                                 last_uns = Some(no);
                                 pending_uns = has_events;
                             } else {
+                                // shape of the solicited series (FIR starts one; a repeated fragment is counted again,
+                                // these are distribution counters only)
+                                if frag[0] & 0x80 != 0 {
+                                    ser_frags = 0;
+                                    ser_events = false;
+                                    ser_ovf_nonfinal = false;
+                                }
+                                ser_frags += 1;
+                                ser_events = ser_events || has_events;
+                                if frag[0] & 0x40 == 0 {
+                                    if frag[3] & 0x08 != 0 {
+                                        ser_ovf_nonfinal = true;
+                                    }
+                                } else {
+                                    if ser_frags >= 2 && ser_events {
+                                        stats.hit("c02_multifragment_event_read");
+                                        shape_cases.insert("c02_multifragment_event_read");
+                                    }
+                                    if ser_ovf_nonfinal && frag[3] & 0x08 == 0 {
+                                        // the S20 shape: the overflow indication is carried by non-final fragments only
+                                        stats.hit(&format!("c02_iin23_only_in_nonfinal_fragments_{read_task}"));
+                                        shape_cases.insert(if read_task == "startup_integrity" { "c02_iin23_only_in_nonfinal_fragments_integrity" } else { "c02_iin23_only_in_nonfinal_fragments_other_read" });
+                                    }
+                                }
                                 last_sol = Some(no);
                                 last_sol_fin = frag[0] & 0x40 != 0;
                                 pending_sol = has_events && frag[0] & 0x20 != 0;
